@@ -175,12 +175,15 @@ type Spec struct {
 	EmitNest    bool   `json:"emitnest,omitempty"` // some of them wrapped in nested cff.EmitterStack
 	AutoInstr   bool   `json:"autoinstr,omitempty"`
 
-	Order  []int `json:"order,omitempty"` // listing order of the options (a permutation)
-	Units  int   `json:"units"`           // number of units
-	Colls  int   `json:"colls,omitempty"` // number of collections
-	Wrap   bool  `json:"wrap,omitempty"`  // argument expressions wrapped in rt.Arg (C15)
-	NArgs  int   `json:"nargs,omitempty"` // number of wrapped argument expressions, in source order
-	Shadow bool  `json:"shadow,omitempty"`
+	Order  []int  `json:"order,omitempty"`  // listing order of the options (a permutation)
+	Units  int    `json:"units"`            // number of units
+	Colls  int    `json:"colls,omitempty"`  // number of collections
+	Wrap   bool   `json:"wrap,omitempty"`   // argument expressions wrapped in rt.Arg (C15)
+	NArgs  int    `json:"nargs,omitempty"`  // number of wrapped argument expressions, in source order
+	Shadow bool   `json:"shadow,omitempty"` // enclosing function declares locals named like generated identifiers and uses them in arguments
+	Encl   string `json:"encl,omitempty"`   // "" | closure | generic: shape of the enclosing function
+	Paren  bool   `json:"paren,omitempty"`  // top-level options written in parentheses
+	Extra  int    `json:"extra,omitempty"`  // number of trivial extra directives in the same function (1: before, 2: before and after)
 
 	// ModSubset marks flows inside the modifier-mode supported subset.
 	ModSubset bool `json:"modsubset,omitempty"`
